@@ -136,11 +136,11 @@ def run(res, prop, tier, seed, work, replay=None):
         "traces_validated_against_impl": n_runs, "schedules": n_runs, "evaluations": n_runs, "race_detector": True, "race_reports": len(races),
         "calls_made": sum(r["calls"] for r in all_recs), "results_seen_in_lifetimes": dict(per), "shutdown_delay_classes": dict(delays),
         "gomaxprocs": dict(collections.Counter(str(r["procs"]) for r in all_recs)),
-        "rule": "one record per pool lifetime: did Shutdown, Run, every concurrent call and every call after Shutdown return (12 s watchdogs), the result class of every call, "
+        "rule": "one record per pool lifetime: did Shutdown, Run, every concurrent call and every call after Shutdown return (30 s watchdogs), the result class of every call, "
                 "what is left registered; one record per distinct race-detector report of the process",
         "samples": all_recs[:1], "checker_cmd": st["cmd"], "tlc_record_states": st["tlc_states"], "budget": True,
     })
     res.assumptions += ["schedules are sampled (seeded delays, scheduling noise, GOMAXPROCS 1..16), not enumerated: the race detector reports only races that the sampled schedules exercise",
-                        "a call that has not returned 12 s after Shutdown is counted as never returning",
+                        "a call that has not returned 30 s after Shutdown is counted as never returning",
                         "the daemon's callbacks are not installed: the pool is exercised on its own",
                         "TLC, SANY and the CommunityModules Json reader are trusted"]
